@@ -292,6 +292,10 @@ func (c *Cache) getSubscription(name string, subscribe bool) (*EventSubscription
 			eventSub.enqueueEvent(subj, payload)
 		})
 		if err != nil {
+			// Release the count taken above so that the entry can be evicted.
+			eventSub.mu.Lock()
+			eventSub.removeCount(1)
+			eventSub.mu.Unlock()
 			return nil, err
 		}
 
